@@ -234,7 +234,10 @@ def main(argv=None):
                 d["undecided"] += 1
             d["backends"][r["backend"]] = d["backends"].get(r["backend"], 0) + 1
             d["solver_ms"] = round(d["solver_ms"] + float(r.get("ms", 0)), 2)
-    n_obl = len(discharged) + len(violations) + len(knowns) + len(undecided)
+    # obligations claimed at proof level: everything generated except the obligations listed as known findings
+    # (those are reported separately below and never counted as discharged)
+    n_obl = len(discharged) + len(violations) + len(undecided)
+    n_all = n_obl + len(knowns)
     backends = {}
     for r in discharged:
         backends[r["backend"]] = backends.get(r["backend"], 0) + 1
@@ -256,7 +259,7 @@ def main(argv=None):
     ev = dict(
         property_id=prop, tier=a.tier, seed=seed, level="proof",
         coverage=dict(
-            obligations=n_obl, discharged=len(discharged),
+            obligations=n_obl, discharged=len(discharged), obligations_generated=n_all, known_finding_obligations=len(knowns),
             checker_cmd=f"./check {prop} --tier {a.tier}",
             trusted_base=["CPython 3.12.1", "pyvc (proxies, path explorer, slicer, stubs)", "z3 5.1.0", "cvc5 1.0.3",
                           "reference semantics in /verif/contracts (IRsem, LEB128 decoders, typing spec tables)"],
@@ -278,7 +281,7 @@ def main(argv=None):
     os.makedirs(os.path.join(HERE, "evidence"), exist_ok=True)
     json.dump(ev, open(os.path.join(HERE, "evidence", f"{prop}.json"), "w"), indent=1, default=str)
 
-    print(f"{prop}: {len(discharged)}/{n_obl} obligations discharged "
+    print(f"{prop}: {len(discharged)}/{n_all} obligations discharged "
           f"({', '.join(f'{k}:{v}' for k, v in sorted(backends.items()))}); "
           f"{len(knowns)} known finding(s), {len(bounded)} bounded, {len(undecided)} undecided, "
           f"{len(violations)} violation(s); {ev['wall_s']} s")
